@@ -82,7 +82,7 @@ PROPS = {
     "C08": dict(level="other", scans=_scan_suspend, native_budget=30,
                 extra=lambda prog, S, tier, seed: [__import__("extras").run_children("config_sweep", REPO, seed, 96 if tier == "quick" else 1600, procs=12)]),
     "C12": dict(level="other", scans=_scan_suspend, native_budget=30),
-    "C16": dict(scans=_scan_suspend),
+    "C16": dict(scans=_scan_suspend, native_budget=25),
     "C17": dict(scans=_scan_suspend),
     "C18": dict(scans=_scan_suspend, native_budget=25),
 }
@@ -128,6 +128,15 @@ def run(pid: str, tier: str, replay: str | None, t0: float) -> int:
     extra_res = []
     if spec_tbl.get("extra"):
         extra_res = spec_tbl["extra"](prog, S, tier, seed)
+    if tier == "thorough":
+        # bounded validation of the verifier's own sequence prelude (about the checker, so a failure is a checker error)
+        from pyvc import validate_prelude
+        pv = validate_prelude.cached(os.path.join(HERE, ".cache"))
+        if pv["failures"]:
+            print(f"CHECKER-ERROR property={pid}: prelude axiom refuted by interpretation: {pv['failures'][0]}")
+            return 3
+        extra_res.append({"name": "bounded:prelude-validation", "ok": True, "bounded": pv["bound"], "cases": pv["instances"],
+                          "detail": f"{pv['axioms']} prelude axioms and the filter-sum lemma interpreted over Python tuples; no instance false"})
     if spec_tbl.get("native_budget"):
         # bounded part run on every check: the real code under the contract monitors (incl. monitor-only clauses)
         import native
